@@ -1,5 +1,5 @@
 (* proofs/C12.v -- lemmas behind the C12 theorems (FIRM and the risk matrix score). *)
-From V Require Import lib.Tree gen.Gen_C12_kern model.C12.
+From V Require Import lib.Tree lib.C12_aux gen.Gen_C12_kern model.C12.
 
 (* case-split every comparison, discarding contradictory branches as soon as they arise *)
 Ltac qcmpx := repeat (qcmp1; try (exfalso; lra)).
@@ -26,24 +26,6 @@ Ltac split_ifs := repeat match goal with |- context [if ?c then _ else _] => des
 Lemma firm_total_is_sum f o a t d s :
   let '(tot, over, under) := gen_firm_single f o a t d s in tot = xadd over under.
 Proof. unfold gen_firm_single. split_ifs; reflexivity. Qed.
-
-(* NaN-iff for EVERY output component: NaN inputs give NaN penalties, never a zero penalty, and nothing else does *)
-Definition disc_ok (d : xv) : Prop := match d with XFin q => 0 <= q | XInf true => True | _ => False end.
-Lemma firm_nan_iff (s : string) (a : Q) (f o t d : xv) :
-  xisinf f = false -> xisinf o = false -> xisinf t = false -> disc_ok d ->
-  let '(tot, over, under) := gen_firm_single f o (XFin a) t d s in
-  (tot = XNaN <-> f = XNaN \/ o = XNaN \/ t = XNaN) /\
-  (over = XNaN <-> f = XNaN \/ o = XNaN \/ t = XNaN) /\
-  (under = XNaN <-> f = XNaN \/ o = XNaN \/ t = XNaN).
-Proof.
-  intros Hf Ho Ht Hd. unfold gen_firm_single.
-  destruct f as [|f|]; destruct o as [|o|]; destruct t as [|t|]; try discriminate;
-  destruct d as [|d|[|]]; try contradiction; simpl in Hd;
-  destruct (String.eqb s "lower"); xunf; kern_go;
-  repeat split; intros; try discriminate; auto; try (exfalso; lra);
-  match goal with H : _ \/ _ |- _ => destruct H as [H|[H|H]]; discriminate end.
-Qed.
-
 
 (* ---- the regenerated scalar guards (their boundaries belong to C20; here they delimit the domain of the theorems) ---- *)
 Lemma firm_guard_pass (a : Q) (d : xv) (s : string) :
